@@ -70,6 +70,9 @@ class Config:
     qf_branching = False  # opt-in per contract (`qf_branching = True`): decide branch feasibility on the quantifier-free
     # part of the path condition only.  Sound (a branch is dropped only when refuted); a branch that only the quantified
     # facts refute is explored, and its obligations are then checked against the full path condition as usual.
+    forall_range_check = True  # values.forall: ask the solver whether the range is empty before building the quantifier
+    ground_first = False  # obligations: try the quantifier-free part of the path condition first (State._check_ground)
+    rounding_hints = False  # int(n / t + 0.5): also state 2*t*q <= 2*n + t < 2*t*(q+1) (builtins_model._rounding_hint)
 
 
 def cvc5_check(smt2: str, timeout_s: int = 20) -> str:
@@ -232,6 +235,42 @@ class State:
         self.ex.queries += 1
         return r == z3.unsat
 
+    def _check_fresh(self, extra, timeout_ms):
+        """The same query as `_check`, in a fresh non-incremental solver."""
+        t0 = time.time()
+        s = z3.Solver()
+        s.set("timeout", timeout_ms)
+        s.add(*self.pc)
+        s.add(extra)
+        r = s.check()
+        model = s.model() if r == z3.sat else None
+        self.ex.solver_time += time.time() - t0
+        self.ex.queries += 1
+        return r, model
+
+    def _check_ground(self, extra, timeout_ms):
+        """Check `extra` against the quantifier-free part of the path condition only, in a fresh (non-incremental)
+        solver.  Dropping assumptions can only lose proofs: an `unsat` here is an `unsat` of the whole query; any
+        other answer says nothing.  Used when the full query comes back unknown (quantified facts that the goal
+        does not need can keep the solver busy), or first when the contract asks for it (`ground_first`)."""
+        t0 = time.time()
+        cache = self.__dict__.setdefault("_qf_cache", {})
+        ground = []
+        for f in self.pc:
+            k = f.get_id()
+            if k not in cache:
+                cache[k] = not _has_quantifier(f)
+            if cache[k]:
+                ground.append(f)
+        s = z3.Solver()
+        s.set("timeout", timeout_ms)
+        s.add(*ground)
+        s.add(extra)
+        r = s.check()
+        self.ex.solver_time += time.time() - t0
+        self.ex.queries += 1
+        return r
+
     def path_key(self):
         return tuple(d[0] for d in self.decisions[: self.pos])
 
@@ -326,6 +365,8 @@ class State:
             t0 = time.time()
             if z3.is_true(formula):
                 ob.status = "discharged"
+            elif getattr(self.cfg, "ground_first", False) and not _has_quantifier(formula) and self._check_ground(z3.Not(formula), min(3000, self.cfg.oblig_timeout_ms)) == z3.unsat:
+                ob.status, ob.backend = "discharged", "z3-ground"
             else:
                 # first against the quantifier-free part of the path condition alone (fewer assumptions: sound;
                 # quantified facts that the goal does not need otherwise send the solver astray), then in full
@@ -333,6 +374,14 @@ class State:
                     r, model = z3.unsat, None
                 else:
                     r, model = self._check(z3.Not(formula), self.cfg.oblig_timeout_ms)
+                if r == z3.unknown:
+                    # the incremental (push/pop) solver gave up: ask a fresh, non-incremental one (it preprocesses
+                    # the whole query), then one that sees only the quantifier-free part of the path condition
+                    r, model = self._check_fresh(z3.Not(formula), self.cfg.oblig_timeout_ms)
+                    if r != z3.unknown:
+                        ob.backend = "z3-fresh"
+                    elif self._check_ground(z3.Not(formula), self.cfg.oblig_timeout_ms) == z3.unsat:
+                        r, ob.backend = z3.unsat, "z3-ground"
                 if r == z3.unsat:
                     ob.status = "discharged"
                 elif r == z3.sat:
